@@ -325,6 +325,8 @@ class repeated_node_property(base_rw_property[RepeatedNodeWrapper[_M], base.RawT
         return wrapper
 
     def __set__(self, instance: _U, value: RepeatedNodeWrapper[_M]) -> None:
+        if value is instance.__dict__.get(self._attr):
+            return  # model.raw_xs += [...] assigns the list back to itself
         repeated = self._inner_field.__get__(instance)
         replace_node(repeated, value.repeated)
         self._inner_field.__set__(instance, value.repeated)
@@ -365,6 +367,8 @@ class cached_custom_property(custom_property[_V, _U]):
         return value
 
     def __set__(self, instance: _U, value: _V) -> None:
+        if self._attr in instance.__dict__ and value is instance.__dict__[self._attr]:
+            return  # model.view += [...] assigns the cached view back to itself
         super().__set__(instance, value)
         instance.__dict__[self._attr] = value
 
